@@ -28,13 +28,7 @@ func (b *vfBits) put(width uint, v uint64) {
 
 func (b *vfBits) putSigned(width uint, v int64) { b.put(width, uint64(v)) }
 
-func (b *vfBits) putBool(v bool) {
-	if v {
-		b.put(1, 1)
-	} else {
-		b.put(1, 0)
-	}
-}
+func (b *vfBits) putBool(v bool) { b.put(1, verifB2U(v)) }
 
 // vfFrame wraps a payload in the 3-byte leader and appends the CRC-24Q.
 func vfFrame(payload []byte) []byte {
